@@ -39,11 +39,6 @@ pub assume_specification<T: Clone> [<T as std::borrow::ToOwned>::to_owned] (x: &
 fn special_to_string(s: &SpecialRustType) -> (r: String)
     ensures r == special_key(*s)
 { unimplemented!() }
-/// T15: `x.into()` for x: &String in a String position
-#[verifier::external_body]
-fn string_of(s: &String) -> (r: String)
-    ensures r@ == s@
-{ unimplemented!() }
 /// itertools `.join(sep)` / `[String]::join(sep)` on the collected arguments
 #[verifier::external_body]
 fn join_strings(v: Vec<String>, sep: &str) -> (r: String)
@@ -227,6 +222,8 @@ impl %s {
             'extraction fail (undecided)' % (struct, ', '.join('%s: %s' % kv for kv in sorted(taken.items())))] + list(trusted_extra),
         undecided=UNDECIDED_COMMON + list(undecided_extra),
     )
+    u.forbid = FORBID
+    u.allowed_calls = ALLOWED_CALLS
     u.crate_attrs = '#![feature(allocator_api)]   // only to NAME the allocator parameter of Box in an assumed specification'
     u.overridden = sorted(overrides)
     u.struct, u.src = struct, src
@@ -239,7 +236,7 @@ SPECIAL_HEAD = [
 ]
 
 
-INTO_RULES = (('tok', 'mapped.into()', 'string_of(mapped)', 'T15'), ('tok', 'base.into()', 'string_of(base)', 'T15'))
+INTO_RULES = ('strlit',)
 KEY_RULE = ('tok', 'special_ty.to_string()', 'special_to_string(special_ty)', 'T16')
 
 
@@ -252,3 +249,11 @@ def _old_special_key_reps(n):
     if n == 1:
         return [rep(A.text('special_ty.to_string()'), 'special_to_string(special_ty)', tag='T16')]
     return [rep(A.text('special_ty.to_string()', nth=k + 1), 'special_to_string(special_ty)', tag='T16') for k in range(n)]
+
+
+# constructs Verus accepts without giving their result any meaning: if one is still present in a function under contract after the
+# rewriting rules, a failed proof would say nothing about the code => the unit answers "undecided" instead of running
+FORBID = ['format!', 'write!', 'writeln!', '.into()', '.to_string()', 'String::from(']
+
+# std / vstd-specified calls the translators may make besides the functions defined in the unit (closed-world check of vunit.build)
+ALLOWED_CALLS = {'get', 'contains', 'to_owned', 'clone', 'as_ref', 'push', 'push_str', 'is_empty', 'iter', 'new', 'as_slice', 'store', 'len'}
